@@ -675,6 +675,7 @@ class Meta:
         self.samples = []
         self.HA = None
         self.asan_pairs = 0
+        self.distinct = set()
 
     def run_batch(self, items):
         """items: (S, base_canon, family, detail, groups, rho, expect_tokens_same) -> evaluates all, handles failures"""
@@ -686,6 +687,8 @@ class Meta:
             ops.append(op)
             texts.append(text)
         ans = self.H.run(ops)
+        for t in texts:
+            self.distinct.add(hashlib.sha256(t.encode("utf-8", "replace")).digest()[:12])
         for it, a, text in zip(items, ans, texts):
             S, base, family, detail, groups, rho = it[:6]
             self.pairs += 1
@@ -900,9 +903,34 @@ def trace_correspondence(ctx, H, L):
     exprs += ["a and b or c", "not a and b", "a imply b imply c", "a = b = c", "a ? b : c ? d : e", "- -a", "-a++", "++a++", "a--", "(++a)++",
               "-2147483648", "- 2147483648", "a := b += c", "a <? b >? c", "!a.b", "a.b.c[1](2)", "f()", "f(a, b)(c)", "a'", "a' == 1",
               "a imply b or c", "a or b imply c", "a and b && c", "a || b or c", "a + b * c ** d", "x ? y : z = 1", "a = b ? c : d"]
+    # the fragment of the small parser the parenthesis theorem is proved for: atoms, prefix / binary operators, parentheses
+    def gen_small(d):
+        if d <= 0 or rng.random() < 0.25:
+            return rng.choice(ids + ["1", "2", "true"])
+        r = rng.random()
+        if r < 0.6:
+            op = rng.choice(["+", "-", "*", "/", "%", "<", "<=", ">", ">=", "==", "!=", "&&", "||", "&", "|", "^", "<<", ">>", "<?", ">?",
+                             "**", "and", "or", "xor"])
+            return gen_small(d - 1) + " " + op + " " + gen_small(d - 1)
+        if r < 0.8:
+            return rng.choice(["- ", "!", "+ ", "not "]) + gen_small(d - 1)
+        return "(" * rng.randint(1, 2) + gen_small(d - 1) + ")" * 0 if False else "(" + gen_small(d - 1) + ")"
+    small = [gen_small(rng.randint(1, 6)) for _ in range(n // 2)]
+    exprs += small
     real = H.run(["trace 1 expr - %s" % hexs(e) for e in exprs])
     model = L.run(["trace %d - %s" % (MASK_NEW, hexs(e)) for e in exprs])
+    pratt = L.run(["pratt %d - %s" % (MASK_NEW, hexs(e)) for e in exprs])
     dis, unsupported, errs = [], 0, 0
+    pratt_cases = 0
+    for e, mt, pt in zip(exprs, model, pratt):
+        # where the small parser speaks it must say what the larger operator model says (which is compared with bison below)
+        if pt != "unsupported":
+            pratt_cases += 1
+            if pt != mt:
+                dis.append({"expr": e, "small_parser": pt, "operator_model": mt})
+    for e, pt in zip(small, pratt[-len(small):]):
+        if pt == "unsupported":
+            dis.append({"expr": e, "small_parser": pt, "note": "expression of the fragment not parsed"})
     for e, ra, mt in zip(exprs, real, model):
         if any(l.startswith("T ERROR") or l.startswith("T EXC") or l.startswith("CRASH") for l in ra):
             errs += 1
@@ -938,7 +966,7 @@ def trace_correspondence(ctx, H, L):
                 i += 1
         if rt != mt2:
             dis.append({"expr": e, "real": rt, "model": mt2})
-    return len(exprs), dis, {"rejected_by_both": errs}
+    return len(exprs), dis, {"rejected_by_both": errs, "small_parser_cases": pratt_cases}
 
 
 # queries (PROPERTY syntax): the soft keywords sup / inf / bounds / simulation ARE keywords here ------------------------------
@@ -1060,7 +1088,8 @@ def query_family(ctx, H, L, tables):
             continue
         diff = next("%s: %r vs %r" % (k, ca[k][:3], cb[k][:3]) for k in ("crash", "q", "diags") if ca[k] != cb[k])
         key = "%s:%s" % (family.replace("query-rename-special", "rename:query"), detail)
-        rp = {"entry": "parse_XML_buffer + parseProperty", "model_b64": b64(mt), "query": q2, "original_query": QUERIES[qi],
+        rp = {"entry": "parse_XML_buffer + parseProperty", "model_b64": b64(mt), "original_model_b64": b64(model_text), "query": q2,
+              "original_query": QUERIES[qi],
               "renaming": rho, "difference": diff}
         if family == "query-rename-special":
             role, sp = detail.split("-named-")
@@ -1203,6 +1232,17 @@ def run(ctx):
     cov["lexer_theorem_hypotheses"] = {"text_blocks": len(code_blocks), "renderable": sum(1 for o in hyp if o.startswith("yes")),
                                        "not_renderable_by_reason": why,
                                        "lexemes_covered": sum(int(o.split(":")[1]) for o in hyp if o.startswith("yes"))}
+    # ... and of the renaming theorem: the same blocks after a fresh renaming (hypothesis h' of C09_rename_lex)
+    ren_blocks = []
+    for (S, _, _) in prepared[:12]:
+        occ, _td = identifiers(S)
+        bn = builtin_names()
+        rho = {x: "rn%d_%s" % (i, x[:3].replace("$", "s").replace("#", "h")) for i, x in enumerate(sorted(occ)) if x not in bn}
+        blocks = apply_edits(S.m.blocks, [e for g in rename_edits(occ, rho) for e in g])
+        ren_blocks += [b for b, k in zip(blocks, S.m.bkind) if k == "code" and b.strip()]
+    hyp2 = L.run(["hyp %d - %s" % (MASK_NEW, hexs(b)) for b in ren_blocks])
+    cov["lexer_theorem_hypotheses"]["renamed_text_blocks"] = len(ren_blocks)
+    cov["lexer_theorem_hypotheses"]["renamed_renderable"] = sum(1 for o in hyp2 if o.startswith("yes"))
     M = Meta(ctx, H, L, tables)
     try:
         ba = core.build_repo("asan")
@@ -1232,8 +1272,12 @@ def run(ctx):
     cov["trace_correspondence"] = {"expressions": n_tr, "disagreements": len(dis_tr), **st_tr}
     nq, qstats, qshapes = query_family(ctx, H, L, tables)
     cov["query_pairs"] = nq
+    hq = L.run(["hyp %d - %s" % (MASK_PROPERTY, hexs(q)) for q in QUERIES])
+    cov["lexer_theorem_hypotheses"]["queries"] = len(QUERIES)
+    cov["lexer_theorem_hypotheses"]["queries_renderable"] = sum(1 for o in hq if o.startswith("yes"))
     cov["query_pairs_by_family"] = qstats
     cov["query_pairs_in_exception_shapes"] = qshapes
+    cov["exceptions"] = sorted(set(ex) | set(qshapes))
     cov["metamorphic_pairs"] = M.pairs + nq
     cov["pairs_repeated_under_asan_ubsan"] = M.asan_pairs
     cov["pairs_by_family"] = M.by_family
@@ -1241,7 +1285,7 @@ def run(ctx):
     cov["rewrites_rejected_by_lexer_model"] = M.skipped_by_model
     cov["metamorphic_disagreements"] = len(M.disagreements)
     cov["evaluations"] = M.pairs + n_lex + n_tr
-    cov["distinct_nontrivial"] = M.pairs
+    cov["distinct_nontrivial"] = len(M.distinct) + nq
     cov["samples"] = M.samples
     cov["rule"] = ("diagnostic multiset (renaming applied, positions ignored), get_supported_methods() and vh::dumpDocument of the "
                    "rewritten model equal those of the original, for every rewrite the lexer model classifies as token-preserving")
@@ -1274,6 +1318,17 @@ def replay(ctx, path):
     r = json.load(open(path))
     rp = r.get("replay", {})
     print(json.dumps({k: v for k, v in r.items() if k != "replay"}, indent=1))
+    if "model_b64" in rp:
+        b = core.build_repo(VARIANT)
+        H = Harness(core.build_harness(b, "c09", ["c09.cpp"]), ctx)
+        m0 = base64.b64decode(rp["original_model_b64"]).decode("utf-8")
+        m1 = base64.b64decode(rp["model_b64"]).decode("utf-8")
+        a0, a1 = H.run(["query %s %s" % (hexs(m0), hexs(rp["original_query"])), "query %s %s" % (hexs(m1), hexs(rp["query"]))])
+        rho = rp.get("renaming") or {}
+        ren = lambda x: WORD.sub(lambda mm: rho.get(mm.group(0), mm.group(0)), x)
+        print("original query :", rp["original_query"], "\n ->", [ren(l) for l in a0])
+        print("rewritten query:", rp["query"], "\n ->", [ren(l) for l in a1])
+        return 1 if [ren(l) for l in a0] != [ren(l) for l in a1] else 0
     if "original_b64" not in rp:
         print(json.dumps(rp, indent=1)[:4000])
         return 1
